@@ -1,6 +1,6 @@
 (* C16 -- Terminal rendering encodes the matrix faithfully with a one-module border. *)
 From Coq Require Import NArith List Bool Arith Lia.
-From FQ Require Import Lib.Mat Model.Types Model.Hardcode Model.Helpers Model.Qr Proofs.Terminal Proofs.BuildMatrix Proofs.GeomSafe.
+From FQ Require Import Proofs.PropLemmas Lib.Mat Model.Types Model.Hardcode Model.Helpers Model.Qr Proofs.Terminal Proofs.BuildMatrix Proofs.GeomSafe.
 Import ListNotations.
 
 (* for EVERY odd size and every matrix: (n+1)/2 + 1 lines of n+2 characters from the four block characters; read back as
@@ -18,12 +18,5 @@ Print Assumptions C16_terminal_spec.
 (* every built symbol meets the hypotheses: odd side between 21 and 177, square matrix *)
 Theorem C16_applies_to_builds : forall input o q, options_wf o -> build input o = Ok q ->
   Nat.odd (q_size q) = true /\ 1 <= q_size q <= 177 /\ wf (q_size q) (q_mat q).
-Proof.
-  intros input o q W H. destruct (build_ok_matrix input o q W H) as (Hv & Hk & Hs & _ & _ & _ & _ & Hm).
-  rewrite Hm, Hs. split; [|split; [|now apply final_matrix_wf]].
-  - unfold version_size. cbv [Generated.Tables.size_mul Generated.Tables.size_add].
-    replace (N.to_nat (N.of_nat (q_version q) * 4 + 21)) with (S (2 * (2 * q_version q + 10))) by lia.
-    rewrite Nat.odd_succ. apply Nat.even_spec. now exists (2 * q_version q + 10).
-  - unfold version_size. cbv [Generated.Tables.size_mul Generated.Tables.size_add]. lia.
-Qed.
+Proof. exact applies_to_builds_c16. Qed.
 Print Assumptions C16_applies_to_builds.
